@@ -232,7 +232,11 @@ RAISE_PROG = r'''
    # waits refused because they are attempted inside a function that C code calls back (janet_call): the armed timer must die with them
    :sleep-in-replace-callback (fn [] (string/replace "a" (fn [_] (ev/sleep to) "x") "a"))
    :sleep-in-out-callback (fn [] (with-dyns [:out (fn [x] (ev/sleep to))] (print "x")))
-   :read-in-cmt-callback (fn [] (peg/match ~(cmt (<- 1) ,(fn [_] (ev/read r2 10 @"" to))) "a"))})
+   :read-in-cmt-callback (fn [] (peg/match ~(cmt (<- 1) ,(fn [_] (ev/read r2 10 @"" to))) "a"))
+   # the same, one fiber deeper: the callback resumes a coroutine and the coroutine is what tries to wait
+   :coro-sleep-in-cmt-callback (fn [] (peg/match ~(cmt (<- 1) ,(fn [_] (resume (coro (ev/sleep to) :slept)))) "a"))
+   :coro-sleep-in-replace-callback (fn [] (string/replace "a" (fn [_] (resume (coro (ev/sleep to) "x"))) "a"))
+   :coro-read-in-out-callback (fn [] (with-dyns [:out (fn [x] (resume (coro (ev/read r2 10 @"" to))))] (print "x")))})
 (each opname [%s]
   (def raised (not (first (protect ((ops opname))))))
   (each bkind [:sleep :take :read]
@@ -330,13 +334,15 @@ def run(ctx):
     # rule 6: an operation with a timeout argument that raises without suspending leaves no live timer behind
     nraise = 6 if quick else 60
     ALLOPS = [":read-busy", ":chunk-busy", ":read-bad-n", ":read-bad-buf", ":write-bad-data", ":read-closed", ":write-closed", ":take-closed",
-              ":sleep-in-replace-callback", ":sleep-in-out-callback", ":read-in-cmt-callback"]
+              ":sleep-in-replace-callback", ":sleep-in-out-callback", ":read-in-cmt-callback",
+              ":coro-sleep-in-cmt-callback", ":coro-sleep-in-replace-callback", ":coro-read-in-out-callback"]
 
     def raising(i):
         rng = random.Random(ctx.sub_seed("raise", i))
         to = rng.choice([0.02, 0.03, 0.05])
         bdur = to * 3 + 0.05
-        opsel = rng.sample(ALLOPS, 5)
+        opsel = [ALLOPS[(i * 5 + k) % len(ALLOPS)] for k in range(5)]     # rotation: every operation is covered at least twice per 6 runs
+        rng.shuffle(opsel)
         script = RAISE_PROG % (repr(to), " ".join(opsel), repr(bdur), repr(bdur), repr(bdur))
         files = {"raise.janet": script}
         d = core.case_dir()
